@@ -194,7 +194,7 @@ def run(report, tier):
     obs = []
     for kind in ("function", "lambda", "partial", "partial_arity", "object", "bound", "builtin_arity", "one_arg"):
         for fail in (False, True):
-            for task in ("ret", "raise"):
+            for task in ("ret", "raise", "raise_falsy"):
                 for when in ("before", "after"):
                     shape = {"kind": kind, "fail": fail, "task": task, "when": when}
                     code = 101 if kind in ("partial_arity", "builtin_arity", "one_arg") else 100
